@@ -128,7 +128,12 @@ def double_star(case):
             t = inst["item"]
             if t["kind"] != "sys": continue
             decl = t["ins"] + t["outs"]; bind = st[4] + st[5]
-            if any(b[1] and d[1] for b, d in zip(bind, decl)): return True
+            # ... on a signal that is bound at least once more in the same system (a signal with a single
+            # binding has nothing to disagree with in the finished sequences)
+            uses = {}
+            for st2 in [x for x in it["stmts"] if x[0] == "component"]:
+                for b2 in st2[4] + st2[5]: uses[b2[0]] = uses.get(b2[0], 0) + 1
+            if any(b[1] and d[1] and uses.get(b[0], 0) >= 2 for b, d in zip(bind, decl)): return True
     return False
 
 def neutralise(rng, case):
@@ -256,7 +261,7 @@ def run(tier, seed, build):
         else:
             c = c02.gen_case(rng)
             if i % 4 == 1:      # every fourth case: a nested system whose starred port is bound with a star
-                for _ in range(300):
+                for _ in range(1500):
                     if double_star(c): break
                     c = c02.gen_case(rng)
                 neutralise(rng, c)
